@@ -38,6 +38,8 @@ def main():
     if benign:
         allp = ["C%02d" % i for i in range(1, 21)]
         for p in sorted(glob.glob(os.path.join(V, "mutants", "benign", "*.patch"))):
+            if args and not any(a in os.path.basename(p) for a in args):
+                continue
             work.append((p, allp))
     else:
         for p in sorted(glob.glob(os.path.join(V, "mutants", "C*", "*.patch"))):
